@@ -330,6 +330,21 @@ func evalTerm(t *T, asg map[string]*big.Int) (*big.Int, bool) {
 			return big.NewInt(0), true
 		}
 		return constValInt(t.C)
+	case "un":
+		x, ok := evalTerm(t.Args[0], asg)
+		if !ok {
+			return nil, false
+		}
+		switch t.Op {
+		case token.NOT:
+			if x.Sign() == 0 {
+				return big.NewInt(1), true
+			}
+			return big.NewInt(0), true
+		case token.SUB:
+			return wrapToType(new(big.Int).Neg(x), t.Typ), true
+		}
+		return nil, false
 	case "conv":
 		x, ok := evalTerm(t.Args[0], asg)
 		if !ok {
